@@ -152,7 +152,7 @@ class Run:
 
         replay_paths = []
         for f in violations:
-            path = write_replay(f)
+            path = write_replay(f, os.path.join(self.project.repo, ".octacheck-replays") if self.no_evidence else None)
             replay_paths.append(path)
             out.append(f"VIOLATION property={self.prop} replay={path}")
             out.append(f"  {f.module}:{f.line} in {f.function} rule={f.rule}")
@@ -207,8 +207,8 @@ def match_known(f: Finding, known: list[dict[str, Any]]) -> dict[str, Any] | Non
     return None
 
 
-def write_replay(f: Finding) -> str:
-    d = os.path.join(VERIF, "replays", f.prop)
+def write_replay(f: Finding, base: str | None = None) -> str:
+    d = os.path.join(base or os.path.join(VERIF, "replays"), f.prop)
     os.makedirs(d, exist_ok=True)
     path = os.path.join(d, f"{f.digest()}.json")
     with open(path, "w", encoding="utf-8") as fh:
